@@ -2309,7 +2309,7 @@ class Lowerer:
                     src = args[0]
                     while src.get('kind') in ('ImplicitCastExpr', 'MaterializeTemporaryExpr', 'ExprWithCleanups', 'CXXBindTemporaryExpr', 'ParenExpr') and src.get('inner'):
                         src = src['inner'][0]
-                    if src.get('kind') == 'CallExpr' and self.callee_name(src) in ('move', 'std::move') and len(src.get('inner', [])) == 2:
+                    if src.get('kind') == 'CallExpr' and self.callee_name(src) in ('move', 'std::move') and len(src.get('inner', [])) == 2 and not self.spec.get('move_hooks'):
                         self.note('move construction from std::move(...) at %s: struct copy + MOVED_FROM_HOOK(source)' % where(e))
                         return '(MOVED_FROM_HOOK((void*)%s), %s)' % (self.addr(src['inner'][1]), self.expr(args[0]))
                 return self.expr(args[0])
@@ -2518,6 +2518,11 @@ class Lowerer:
                 self.note('std::numeric_limits<%s>::%s() -> %s' % (rt.name, name, v))
                 return v
         if name in ('move', 'forward') and n == 1:
+            if name == 'move' and self.spec.get('move_hooks') and self.is_lvalue(args[0]):
+                # std::move(lvalue): the object is handed over as an rvalue and may be moved from; units that care
+                # (handles of the C binding) observe WHICH object through MOVED_FROM_HOOK (default: no-op)
+                self.note('std::move(lvalue) at %s: MOVED_FROM_HOOK(&object) emitted' % where(e))
+                return '(*(MOVED_FROM_HOOK((void*)%s), %s))' % (self.addr(args[0]), self.addr(args[0]))
             return self.expr(args[0])
         if name == 'distance' and n == 2:
             return '(%s - %s)' % (self.expr(args[1]), self.expr(args[0]))
